@@ -584,6 +584,30 @@ func drawSnippet(t *rapid.T, name string, e genEnv) []Op {
 			b2 := rapid.IntRange(0, e.nBrows-1).Draw(t, "b2")
 			ops = append(ops, Op{K: "setcookie", B: b2, Src: "cookie", SA: a, SN: rapid.IntRange(0, 2).Draw(t, "oldn")}, Op{K: "newsess", B: b2}, Op{K: "visit", B: b2, S: "/p/none"})
 		}
+	case "rmrevoke":
+		// remembered on one or two browsers, perhaps re-authenticated by cookie (the cookie rotates), then the password
+		// changes (API or recovery), then copies of the cookies from before - spent ones included - come back
+		if !c.Has("remember") || !c.Has("auth") {
+			return nil
+		}
+		login.F = true
+		ops = append(ops, login)
+		if chance(t, "second", 40) {
+			b2 := rapid.IntRange(0, e.nBrows-1).Draw(t, "b2")
+			ops = append(ops, Op{K: "newsess", B: b2}, Op{K: "login", B: b2, A: a, Src: "pw", SA: a, F: true})
+		}
+		for k := rapid.IntRange(0, 2).Draw(t, "rotations"); k > 0; k-- {
+			ops = append(ops, Op{K: "newsess", B: b}, Op{K: "visit", B: b, S: pick(t, "route", "/p/none", "/open", "/p/full")})
+		}
+		if c.Has("recover") && chance(t, "viarecover", 35) {
+			ops = append(ops, Op{K: "recstart", B: b, A: a}, Op{K: "recend", B: b, A: a, Src: "rectok", SA: a, S: pick(t, "pw", goodPWs...)})
+		} else {
+			ops = append(ops, Op{K: "updpw", A: a, S: pick(t, "pw", goodPWs...)})
+		}
+		for k := rapid.IntRange(1, 3).Draw(t, "comebacks"); k > 0; k-- {
+			b3 := rapid.IntRange(0, e.nBrows-1).Draw(t, "b3")
+			ops = append(ops, Op{K: "setcookie", B: b3, Src: "cookie", SA: a, SN: rapid.IntRange(0, 3).Draw(t, "oldn")}, Op{K: "newsess", B: b3}, Op{K: "visit", B: b3, S: pick(t, "route2", "/p/none", "/open")})
+		}
 	case "oauth":
 		if !c.Has("oauth2") {
 			return nil
